@@ -23,20 +23,21 @@ MAX_DIAG = 64
 STRICT_RANGE = True
 LIBKINDS = ['KLabelTwice', 'KPadEval', 'KPadNonPositive', 'KPadUnaligned', 'KSegmentEval', 'KSegmentUnaligned',
             'KReserveEval', 'KReserveUnaligned', 'KExprFold', 'KOpEval', 'KWflipValue', 'KBoundsUnaligned', 'KNoSpace',
-            'KAddSegment', 'KNoFirstOp', 'KFirstNotSegment', 'KNotPrimitive', 'KPadTooHigh', 'KWriterWordRange']
+            'KAddSegment', 'KNoFirstOp', 'KFirstNotSegment', 'KNotPrimitive', 'KPadTooHigh', 'KWriterWordRange',
+            'KReserveNegative']
 
 # recorded defects of the unchanged tree: the theorems carry these guards; a case failing the specification only
 # because of one of them is reported as that finding (KNOWN-FINDING when listed in known_findings.json)
 # fixed in /repo: never guarded, a reappearance is a violation with the old signature
-FIXED = {'aux-op-on-io-cell', 'jump-word-wrapped'}
+FIXED = {'aux-op-on-io-cell', 'jump-word-wrapped', 'generated-label-collision', 'negative-reserve-accepted'}
 DEFECTS = {
     'aux-op-on-io-cell': 'REGRESSION of fixed finding F16: a wflip chain op is placed in the pad hole / wflip area at address 2w (the op holding the '
                          'input cell): executing the wflip consumes input and may corrupt its own jump word',
     'jump-word-wrapped': 'REGRESSION of fixed finding F8: fjm versions 2/3 store a jump word outside [0,2^w) modulo 2^w '
                          'instead of rejecting the program',
-    'negative-reserve-accepted': 'a `reserve` of a negative size that moves the address back to the start of the current '
+    'negative-reserve-accepted': 'REGRESSION of fixed finding F18 (825c6f7): a `reserve` of a negative size that moves the address back to the start of the current '
                                  'segment piece is accepted: the ops before it stay in the image and shift every later op',
-    'generated-label-collision': "a user label whose full name is '_.wflip_area_start_<k>' (label wflip_area_start_<k> in "
+    'generated-label-collision': "REGRESSION of fixed finding F17 (07c8d15): a user label whose full name is '_.wflip_area_start_<k>' (label wflip_area_start_<k> in "
                                  "namespace _) is silently overwritten by the k-th `segment` statement (no duplicate check)",
 }
 
@@ -50,6 +51,7 @@ def classify_error(err):
                        ("'pad' requires the current address to be op-aligned", 'KPadUnaligned'),
                        ('padding ops, which exceeds the', 'KPadTooHigh'),
                        ('segment ops must have a w-aligned', 'KSegmentUnaligned'), ('segment failed', 'KSegmentEval'),
+                       ('reserve must get a non-negative size', 'KReserveNegative'),
                        ('reserve ops must have a w-aligned', 'KReserveUnaligned'), ('reserve failed', 'KReserveEval')):
             if pat in msg:
                 return 'lib', k
@@ -186,7 +188,7 @@ def evaluate(ctx, name, jobs, results, count=True):
         else:
             ctx.hist('outcome', 'assembled')
         g = None
-        if label_collision(r) and not listed(ctx, 'generated-label-collision'):
+        if label_collision(r) and 'generated-label-collision' not in FIXED and not listed(ctx, 'generated-label-collision'):
             g = 'generated-label-collision'
         if g:
             gkind[i] = g
@@ -291,7 +293,8 @@ def run(ctx):
         'lexing/LALR parsing is shared with the implementation through the AST dump (harness/fjverif/dump_tree.py)',
         'the wflip clause of Denotes is claimed under its stated side conditions (statement not on the input-cell op, '
         'target words exist and are not words of the chain itself)',
-        'guards of recorded defects: ' + '; '.join(f'{k}: {v}' for k, v in DEFECTS.items()),
+        'no defect guard is in force (all recorded C02 findings are fixed; their signatures stay as regression probes: '
+        + ', '.join(sorted(DEFECTS)) + '); lexical_labels (no label spelled `:wflips:...`) is a property of lexer output',
     ]
 
 
